@@ -35,7 +35,8 @@ META = {
         " Round 7: a flag test by prefix cannot be answered by a different flag (dup_lot / dup_lot_acreage); ilots evaluated on lot names the parser writes ('N2 of L7'); a substring pre-test in front of a regex search is implied by every enumerated member of the regex's language."
         ' Round 8: the duplicate scan is gated on the list it scans; a lot group is cut at the bounds of its whole match.'
         " Round 10: stale captures of repeated groups (`word_lot_rightmost`, `and`, `thru`) are not read by value in a rightmost walk - this found and repaired a genuine defect ('N/2 of Lot 1 - Lot 3, 4'); the aliquot look-ahead accepts every element separator."
-        " Round 11: `x = x or self.x` on a switch setting drops an explicit False; the acreage pattern finds the acreage in context ('L1(38.29)')."),
+        " Round 11: `x = x or self.x` on a switch setting drops an explicit False; the acreage pattern finds the acreage in context ('L1(38.29)')."
+        " Round 12: the 'Lot'-word count is taken after this pass's lots were added, as their plain number."),
     'families': ['SEP', 'DEFUSE', 'PAIR', 'RX-LANG', 'RX-GROUPS', 'FORWARD', 'DEADPARAM', 'SIB-DEFAULTS'],
 }
 
@@ -234,6 +235,7 @@ def _rest_of_check(ctx, fi, mlwa, aunp):
     ilots_after_l(ctx)
     ctx.attempt(_dups)
     ctx.attempt(_unpack_lots)
+    ctx.attempt(_word_lot_count_after_the_lots)
     ctx.attempt(_acreage)
     ctx.attempt(forward.check_all, module_suffixes=('unpack.unpackers', 'tract.tract_parse', 'tract.tract'))
     ctx.attempt(common.flag_prefix_tests)
@@ -388,3 +390,35 @@ def _acreage(ctx):
     t = ' '.join(norm(s) for s in walk_local(tp.node) if isinstance(s, ast.stmt))
     ctx.shape('for lot_, acres_ in unpacker.lot_acres.items()' in t and 'self.lot_acres[lot_] = acres_' in t, 'DEFUSE',
               "each block's acreages are merged into the tract's lot_acres")
+
+
+def _word_lot_count_after_the_lots(ctx):
+    """`word_lot_encountered = len(working_lot_list)` counts the lots seen so
+    far INCLUDING the one(s) just read (a range adds several): the statement
+    has to come after everything this pass adds to the list, and take the
+    plain length.  Counted earlier, a following range is not included and the
+    leading aliquot reaches too far ('N/2 of Lot 1, Lots 3 - 5')."""
+    fi = ctx.repo.func('LotUnpacker.unpack_lots')
+    loops = [l for l in fi.node.body if isinstance(l, (ast.While, ast.For))]
+    n = 0
+    for lp in loops:
+        body = lp.body
+        adds = [i for i, st in enumerate(body) if any(
+            isinstance(c, ast.Call) and isinstance(c.func, ast.Attribute) and c.func.attr in ('append', 'extend', 'appendleft', 'extendleft', 'insert')
+            and isinstance(c.func.value, ast.Name) and 'lot_list' in c.func.value.id for c in ast.walk(st))]
+        sets = [(i, a) for i, st in enumerate(body) for a in ast.walk(st) if isinstance(a, ast.Assign)
+                and any(isinstance(t, ast.Name) and t.id == 'word_lot_encountered' for t in a.targets)]
+        if not adds or not sets:
+            continue
+        n += 1
+        early = [(i, a) for i, a in sets if i <= max(adds) and not any(j > i for j in []) and i < max(adds)]
+        odd = [(i, a) for i, a in sets if not (isinstance(a.value, ast.Call) and dotted(a.value.func) == 'len')]
+        bad = early or odd
+        ctx.tri(not bad, bool(bad) and all(isinstance(a.value, (ast.Call, ast.BinOp)) for _i, a in bad), 'ORDER',
+                "unpack_lots: the 'Lot'-word count is taken after this pass's lots were added, as their plain number",
+                detail_bad=(f"`{norm(bad[0][1])[:60]}` " + ("runs before the statement that adds this pass's lots (a range adds several): "
+                            if early else "does not take the plain length of the list: ") +
+                            "the number of lots the leading aliquot reaches is off - 'N/2 of Lot 1, Lots 3 - 5' divides Lot 3 too") if bad else '',
+                key="ORDER|unpack_lots|word-lot-count", where=common.loc(fi, bad[0][1]) if bad else None)
+    if n == 0:
+        ctx.undecided('ORDER', "unpack_lots: the 'Lot'-word count", 'bookkeeping not recognised')
